@@ -74,7 +74,7 @@ func c07PackSetup(in c07PackIn) *c07Chain {
 		a := pick(r, accts)
 		extra := int64(r.intn(4)) * 100_0000
 		spec := c07TxSpec{signers: []*c07Acct{a}, script: script, sysfee: int64(1+r.intn(4)) * 500_0000,
-			vub: c.bc.BlockHeight() + 1 + uint32(r.intn(3)),
+			vub:    c.bc.BlockHeight() + 1 + uint32(r.intn(3)),
 			netfee: func(size int, calc int64) int64 { return int64(size)*fpb + calc + extra }}
 		if len(made) > 0 && r.chance(12) {
 			// replaces an earlier transaction of the same sender through Conflicts (must out-bid it)
@@ -287,12 +287,22 @@ func c07TightSize(r *rng, in c07PackIn) (size uint32) {
 func c07RunPack(co *caseOut, in c07PackIn) {
 	c := c07PackSetup(in)
 	defer c.close()
+	for round := 0; round < in.Rounds; round++ {
+		if _, ok := c07PackOnce(co, c, "pack", in, round, in.Cosign, in.Many, in.Cfg.SRH); !ok {
+			break
+		}
+	}
+}
+
+// c07PackOnce: one round: pack a block from the pool (ApplyPolicyToTxSet), check it against the limits, record the
+// CPack case, hand it to the replica as bytes and to the node itself; false = nothing (more) to pack or a violation.
+func c07PackOnce(co *caseOut, c *c07Chain, kind string, in any, round int, cosign bool, many int, srh bool) ([]*transaction.Transaction, bool) {
 	cfg := c.bc.GetConfig()
 	mp := c.bc.GetMemPool()
-	for round := 0; round < in.Rounds; round++ {
+	{
 		pool := mp.GetVerifiedTransactions()
 		if len(pool) == 0 {
-			break
+			return nil, false
 		}
 		sel := c.bc.ApplyPolicyToTxSet(pool)
 		b := c.e.NewUnsignedBlock(c.t, sel...)
@@ -352,19 +362,19 @@ func c07RunPack(co *caseOut, in c07PackIn) {
 			prefix = prefix && i < len(pool) && sel[i] == pool[i]
 		}
 		impl := map[string]any{"round": round, "pool": len(pool), "selected": len(sel), "encoded_block": encoded, "expected_block": b.GetExpectedBlockSize(),
-			"tx_bytes": txBytes, "sysfee": sysfee, "sizes": sizes, "sysfees": fees, "srh": in.Cfg.SRH}
+			"tx_bytes": txBytes, "sysfee": sysfee, "sizes": sizes, "sysfees": fees, "srh": srh}
 		cut := "all"
 		if len(sel) < len(pool) {
 			cut = "cut"
 		}
 		tag := cut
-		if in.Cosign {
+		if cosign {
 			tag += "/cosign"
 		}
-		if in.Many > 0 {
+		if many > 0 {
 			tag += fmt.Sprintf("/many%d", len(sel))
 		}
-		if in.Cfg.SRH {
+		if srh {
 			tag += "/srh"
 		}
 		note := ""
@@ -374,9 +384,9 @@ func c07RunPack(co *caseOut, in c07PackIn) {
 		case !prefix:
 			note = "ApplyPolicyToTxSet did not return a prefix of the pool order"
 		case len(sel) > 0 && uint32(encoded) > cfg.MaxBlockSize:
-			note = fmt.Sprintf("the packed block is %d bytes, MaxBlockSize is %d: exceeds by %d bytes (StateRootInHeader=%v)", encoded, cfg.MaxBlockSize, encoded-int(cfg.MaxBlockSize), in.Cfg.SRH)
+			note = fmt.Sprintf("the packed block is %d bytes, MaxBlockSize is %d: exceeds by %d bytes (StateRootInHeader=%v)", encoded, cfg.MaxBlockSize, encoded-int(cfg.MaxBlockSize), srh)
 		case len(sel) > 0 && b.GetExpectedBlockSize() > int(cfg.MaxBlockSize):
-			note = fmt.Sprintf("the packed block's expected size %d exceeds MaxBlockSize %d: consensus backups refuse the proposal (StateRootInHeader=%v)", b.GetExpectedBlockSize(), cfg.MaxBlockSize, in.Cfg.SRH)
+			note = fmt.Sprintf("the packed block's expected size %d exceeds MaxBlockSize %d: consensus backups refuse the proposal (StateRootInHeader=%v)", b.GetExpectedBlockSize(), cfg.MaxBlockSize, srh)
 		case sysfee > cfg.MaxBlockSystemFee:
 			note = fmt.Sprintf("the packed block's system fee %d exceeds MaxBlockSystemFee %d", sysfee, cfg.MaxBlockSystemFee)
 		case cfg.MaxTransactionsPerBlock != 0 && len(sel) > int(cfg.MaxTransactionsPerBlock):
@@ -386,26 +396,27 @@ func c07RunPack(co *caseOut, in c07PackIn) {
 			impl["diag"] = note
 			tag = "violation"
 		}
-		co.add("pack", tag, len(sel) < len(pool), in, impl,
+		co.add(kind, tag, len(sel) < len(pool), in, impl,
 			fmt.Sprintf("CPack %d%%nat %d %d %d %d [%s] [%s] %d%%nat", cfg.MaxTransactionsPerBlock, cfg.MaxBlockSize, cfg.MaxBlockSystemFee,
 				hdr, encoded-txBytes, strings.Join(recs, ";"), strings.Join(bals, ";"), len(sel)))
 		if note != "" {
-			co.violation("pack", note, in, impl)
+			co.violation(kind, note, in, impl)
 		}
 		// the way peers receive it
 		if err := c.relay(b); err != nil {
-			co.violation("pack", "the packed block, serialised and parsed again, is refused by the replica: "+err.Error(), in, impl)
-			return
+			co.violation(kind, "the packed block, serialised and parsed again, is refused by the replica: "+err.Error(), in, impl)
+			return nil, false
 		}
 		if err := c.bc.AddBlock(b); err != nil {
-			co.violation("pack", "the packed block is refused by the node that packed it: "+err.Error(), in, impl)
-			return
+			co.violation(kind, "the packed block is refused by the node that packed it: "+err.Error(), in, impl)
+			return nil, false
 		}
 		if c.poolNote == "" {
 			c.notePool()
 			if c.poolNote != "" {
-				co.violation("pack", "after the block: "+c.poolNote, in, impl)
+				co.violation(kind, "after the block: "+c.poolNote, in, impl)
 			}
 		}
+		return sel, true
 	}
 }
